@@ -31,7 +31,7 @@ IDENT = "ext_crate"
 CFGS = ["absent", "any", "never", "version"]
 POLICIES = ["generate", "allow", "deny"]
 RENAMES = [None, "other", "other-crate"]
-PARAMS = ["0", "1i", "1r", "2"]
+PARAMS = ["0", "1i", "1r", "2", "1x"]
 SITES = ["member", "def_same", "def_diff", "vec", "inline"]
 MALFORMED = ["no_path", "no_version", "no_crate", "bad_req", "empty_req", "path_no_sep", "path_other_crate", "path_hyphen", "ext_string", "ext_number",
              "ext_array", "params_string"]
@@ -46,6 +46,9 @@ def ext_value(req, params, mal=None):
         x["parameters"] = [{"$ref": "#/definitions/Gizmo"}]
     elif params == "2":
         x["parameters"] = [{"$ref": "#/definitions/Gizmo"}, {"type": "integer", "format": "uint8", "minimum": 0}]
+    elif params == "1x":
+        # the README's own example: the parameter is a referenced schema that itself carries the extension (same crate, same requirement)
+        x["parameters"] = [{"$ref": "#/definitions/GizmoX"}]
     if mal == "no_path":
         del x["path"]
     elif mal == "no_version":
@@ -75,7 +78,9 @@ def ext_value(req, params, mal=None):
 
 def build_doc(site, req, params, mal):
     thing = {"type": "object", "properties": {MARKER: {"type": "string"}}, "required": [MARKER], "x-rust-type": ext_value(req, params, mal)}
-    defs = {"Gizmo": {"type": "object", "properties": {"g": {"type": "integer"}}}}
+    defs = {"Gizmo": {"type": "object", "properties": {"g": {"type": "integer"}}},
+            "GizmoX": {"type": "object", "properties": {"gx": {"type": "integer"}},
+                       "x-rust-type": {"crate": CRATE, "version": req, "path": IDENT + "::GizmoX"}}}
     if site == "member":
         defs["Thing"] = thing
         defs["User"] = {"type": "object", "properties": {"m": {"$ref": "#/definitions/Thing"}}, "required": ["m"]}
@@ -138,6 +143,8 @@ def expected_path(c):
         p += "<Gizmo>"
     elif c["params"] == "2":
         p += "<Gizmo,u8>"
+    elif c["params"] == "1x":
+        p += "<::%s::GizmoX>" % first
     return p
 
 
@@ -232,7 +239,7 @@ def execute(cases_, tier, seed):
     res.extra["semver_pairs_crosschecked"] = len(PAIRS)
     res.samples = [{"settings": c["settings"], "ext": c["doc"]["definitions"].get("Thing", c["doc"]["definitions"].get("Other", {})).get("x-rust-type"),
                     "site": c["site"]} for c in cases_[:: max(1, len(cases_) // 4)]][:4]
-    res.bound = ("tier=%s: %s of cfg(4) x policy(3) x %d semver pairs x rename(3) x params(4) x site(5); malformed(12) x cfg x policy x sites"
+    res.bound = ("tier=%s: %s of cfg(4) x policy(3) x %d semver pairs x rename(3) x params(5) x site(5); malformed(12) x cfg x policy x sites"
                  % (tier, "full product", len(PAIRS if tier != "quick" else QUICK_PAIRS)))
     res.assumptions = ["expected semver column hand-written from Cargo's documented semantics, cross-checked against the semver crate (disagreement = exit 2)"]
     if len(outcomes) < 2 and len(cases_) > 10:
